@@ -22,7 +22,7 @@
 From PV Require Import Base.Bytes Base.Res Model.EncapDefs Gen.EncapGen.
 Open Scope Z_scope.
 
-Definition zlen {A} (l : list A) : Z := Z.of_nat (length l).
+Definition zlen (l : bytes) : Z := Z.of_nat (length l).
 
 Inductive pv := PNone | PBytes (b : bytes) | PInt (z : Z).
 
